@@ -14,7 +14,8 @@ ids="$@"
 [ -n "$ids" ] || ids=$(ls /verif/seeded | sort)
 missed=0
 for id in $ids; do
-  prop=${id%%-*}
+  prop=$(python3 -c "import json;print(json.load(open('/verif/seeded/$id/meta.json')).get('property','')[:3])" 2>/dev/null)
+  case "$prop" in C[0-9][0-9]) ;; *) prop=${id%%-*};; esac
   (cd $S/repo && git checkout -q -- . && git clean -fdq && git apply /verif/seeded/$id/patch.diff) || { echo "$id APPLY-FAILED"; missed=1; continue; }
   t0=$(date +%s)
   out=$(/verif/check $prop --tier quick -repo $S/repo 2>&1); rc=$?
